@@ -561,7 +561,7 @@ class Sim:
             raise ModelProblem("instruction [%s] appeared during allocation but was not produced by gen_load/gen_store" % x.text)
         n = self.occ[id(x.ins)]
         self.occ[id(x.ins)] += 1
-        self.cur_writer = None
+        self.cur_writer = ("spill", id(role["seq"]))
         inputs = [self.post_get(r) for r in x.uses]
         for ui, pid_, pj in role["deps"]:
             if pid_ in self.rec.new_removed or ui >= len(inputs):
@@ -574,11 +574,16 @@ class Sim:
                 )
             exp = self.last_out.get((pid_, pj))
             if exp is not None and inputs[ui] != exp:
-                raise Mismatch(
-                    "spilltemp",
-                    "%s (spill %s code) reads temporary %r from %s, which no longer holds %s but %s"
-                    % (where, role["kind"], x.uses[ui].name, self.model.phys(x.uses[ui]).name, self.describe(exp), self.describe(inputs[ui])),
-                )
+                t = x.uses[ui]
+                loc = self.model.phys(t)
+                intruder = self.post_writer.get(id(loc))
+                msg = "%s (spill %s code) reads temporary %r from %s, which no longer holds %s but %s" % (
+                    where, role["kind"], t.name, loc.name, self.describe(exp), self.describe(inputs[ui]))
+                # model of finding C06-KF2: the temporary is a FIXED physical register of the spill code (avr: Z), and the
+                # value found in it was put there by a different spill sequence that a later spill round inserted in between
+                if t._num is not None and isinstance(intruder, tuple) and intruder[0] == "spill" and intruder[1] != id(role["seq"]):
+                    msg += "\n[KF2: fixed register %s of this spill sequence was reloaded by another spill sequence inserted into it by a later spill round]" % loc.name
+                raise Mismatch("spilltemp", msg)
         for ui in role["ext"]:
             if ui < len(x.uses):
                 r = x.uses[ui]
@@ -923,7 +928,7 @@ def explain_kf1(rec, info):
     liveness computed WITHOUT those edges the clobbered value is dead at the clobbering definition, while it is live
     with them - i.e. exactly this defect accounts for the mismatch.  Anything else stays unexplained (and alarms)."""
     c, r, k = info.get("clobberer"), info.get("reader"), info.get("operand")
-    if c is None or r is None:
+    if not isinstance(c, int) or r is None:
         return None
     pre = rec.pre
     n = len(pre)
@@ -1254,6 +1259,21 @@ def pycache_prefix():
     return os.path.join(os.path.dirname(os.path.abspath(REPO)), "c06-pycache")
 
 
+def _source_stamp():
+    """Identity of every source file the zygote imports from the trees that change (sizes and mtimes)."""
+    import hashlib
+
+    h = hashlib.blake2b(digest_size=16)
+    for root in (os.path.join(REPO, "ppci"), os.path.join(VERIF, "vf")):
+        for d, dirs, files in os.walk(root):
+            dirs[:] = sorted(x for x in dirs if x != "__pycache__")
+            for f in sorted(files):
+                if f.endswith(".py"):
+                    st = os.stat(os.path.join(d, f))
+                    h.update(("%s/%s:%d:%d;" % (d, f, st.st_size, st.st_mtime_ns)).encode())
+    return h.hexdigest()
+
+
 def zygote_main():
     """Entry of the fresh interpreter: import everything, warm the targets, then fork one child per request."""
     import logging
@@ -1311,10 +1331,22 @@ class Zygote:
         wenv = dict(env)
         del wenv["PYTHONDONTWRITEBYTECODE"]
         os.makedirs(env["PYTHONPYCACHEPREFIX"], exist_ok=True)
-        w = subprocess.run(pre + [sys.executable, "-c", "from vf.props.c06 import zygote_imports; zygote_imports()"],
-                           env=wenv, cwd=VERIF, stdin=subprocess.DEVNULL, stdout=subprocess.DEVNULL, stderr=subprocess.PIPE)
-        if w.returncode != 0:
-            raise HarnessError("C06 zygote warm-up failed: %s" % w.stderr.decode(errors="replace")[-2000:])
+        stamp_file = os.path.join(env["PYTHONPYCACHEPREFIX"], "sources.stamp")
+        stamp = _source_stamp()
+        try:
+            fresh = open(stamp_file).read() == stamp
+        except OSError:
+            fresh = False
+        if not fresh:
+            w = subprocess.run(pre + [sys.executable, "-c", "from vf.props.c06 import zygote_imports; zygote_imports()"],
+                               env=wenv, cwd=VERIF, stdin=subprocess.DEVNULL, stdout=subprocess.DEVNULL, stderr=subprocess.PIPE)
+            if w.returncode != 0:
+                raise HarnessError("C06 zygote warm-up failed: %s" % w.stderr.decode(errors="replace")[-2000:])
+            if _source_stamp() == stamp:
+                tmp = stamp_file + ".%d" % os.getpid()
+                with open(tmp, "w") as f:
+                    f.write(stamp)
+                os.replace(tmp, stamp_file)
         # 2. the zygote proper: never writes, always finds complete bytecode
         cmd = pre + [sys.executable, "-c", "import sys; from vf.props.c06 import zygote_main; zygote_main()"]
         import tempfile
@@ -1961,17 +1993,28 @@ def kf1_open():
     return "C06-KF1" in open_finding_ids(PID)
 
 
+def kf2_open():
+    from ..core import open_finding_ids
+
+    return "C06-KF2" in open_finding_ids(PID)
+
+
+AVR_KF2_MAX_VALUES = 18  # fewer simultaneously live values on avr: spill slots stay within Y+63, no Z-addressed spill code
+
+
 def stress_module(ti, flavour):
     from hypothesis import strategies as st
 
     cap = CAP[ti.target]
     exclude_kf1 = kf1_open()
+    exclude_kf2 = ti.target == "avr" and kf2_open()
 
     @st.composite
     def _m(draw):
         mod = _SM(ti)
         funcs = []
         excluded = 0
+        excluded2 = 0
         for fi in range(draw(st.integers(1, 2))):
             fb = _FB(draw, "s%d" % fi, ti, mod)
             heavy = flavour == "spill"
@@ -2001,6 +2044,9 @@ def stress_module(ti, flavour):
                 else:
                     lo, hi = 1, 5
                 k = draw(st.integers(lo, hi))
+                if exclude_kf2 and k > AVR_KF2_MAX_VALUES:
+                    k = AVR_KF2_MAX_VALUES
+                    excluded2 += 1
                 wide = draw(st.integers(0, 99)) < 60
                 for i in range(k):
                     ty = ity if (wide and draw(st.integers(0, 99)) < 70) else fb.pick(ltypes)
@@ -2053,6 +2099,8 @@ def stress_module(ti, flavour):
         m = {"ptr_bits": ti.pbits, "globals": [], "externals": list(mod.externals.values()), "functions": funcs}
         if excluded:
             m["excluded_kf1"] = excluded
+        if excluded2:
+            m["excluded_kf2"] = excluded2
         return m
 
     return _m()
@@ -2102,8 +2150,9 @@ def case_strategy(targets):
         else:
             case["kind"] = "ir"
             case["module"] = draw(stress_module(ti, gen))
-            if "excluded_kf1" in case["module"]:
-                case["excluded"] = {"C06-KF1": case["module"].pop("excluded_kf1")}
+            for key, kid in (("excluded_kf1", "C06-KF1"), ("excluded_kf2", "C06-KF2")):
+                if key in case["module"]:
+                    case.setdefault("excluded", {})[kid] = case["module"].pop(key)
             case["level"] = draw(st.sampled_from(["0", "0", "2"]))
         case["tail"] = draw(st.lists(st.integers(0, 1), max_size=24))
         return case
@@ -2119,9 +2168,13 @@ def case_strategy(targets):
 def classify(case, msg):
     """C06-KF1: the mismatch is a read whose value was overwritten by a definition at which ppci's liveness (flow graph
     without fall-through edges into jump targets) takes the value for dead although it is live - decided in the child by
-    `explain_kf1` on the frame itself (input shape AND model of the wrong liveness); everything else stays a violation."""
+    `explain_kf1` on the frame itself (input shape AND model of the wrong liveness).
+    C06-KF2: avr only; a spill sequence's fixed physical address register was overwritten by ANOTHER spill sequence
+    (decided in the child from the last writer of the register).  Everything else stays a violation."""
     if msg and msg.startswith("[read]") and "\n[KF1: ppci's FlowGraph has no fall-through edge" in msg:
         return "C06-KF1"
+    if msg and msg.startswith("[spilltemp]") and "\n[KF2: fixed register " in msg and case.get("target") == "avr":
+        return "C06-KF2"
     return None
 
 
@@ -2203,8 +2256,8 @@ def _worker(arg):
 
 
 def run(ctx):
-    n = ctx.scale(24, 2500)
-    budget = ctx.scale(60, 3000)
+    n = ctx.scale(16, 2500)
+    budget = ctx.scale(40, 3000)
     args = []
     nt = len(TARGETS)
     for w in range(16):
